@@ -77,10 +77,19 @@ def gen_case(rng, thorough):
                                               prog=('const', ('int', 30 + lvl)))))
             nid += 1
     cmp_trace = True
+    stack_pad = 0
     if runaway and nhooks - depth - 1 >= 2:
         a, b = depth + 1, depth + 2
-        ops.append(('register', nid, dict(owner=0, hook=a, tier=1, wrapper=False, guarded=False, post=None,
-                                          prog=('add', ('read', 'self', b), ('const', ('int', 1)))))); nid += 1
+        pa = ('add', ('read', 'self', b), ('const', ('int', 1)))
+        if nhooks - depth - 1 >= 3 and rng.random() < 0.7:
+            # at every level of the runaway recursion a fresh implementation (of hook c, which never yields a
+            # value and is therefore never remembered) is probed: the recursion limit can strike inside its call
+            c = depth + 3
+            pa = ('ifhas', 'HasValue', 'self', c, ('read', 'self', b), pa)
+            ops.append(('register', nid, dict(owner=0, hook=c, tier=1, wrapper=False, guarded=False, post=None,
+                                              prog=('ifcycle', ('const', ('int', 100)), ('const', ('none',)))))); nid += 1
+            stack_pad = rng.randrange(0, 40)
+        ops.append(('register', nid, dict(owner=0, hook=a, tier=1, wrapper=False, guarded=False, post=None, prog=pa))); nid += 1
         ops.append(('register', nid, dict(owner=0, hook=b, tier=1, wrapper=False, guarded=False, post=None,
                                           prog=('read', 'self', a)))); nid += 1
         cmp_trace = False
@@ -93,7 +102,7 @@ def gen_case(rng, thorough):
         reads.append(('read', rng.randrange(nobj), rng.randrange(nhooks)))
         if rng.random() < 0.1:
             reads.append(('has', 'HasValue', rng.randrange(nobj), rng.randrange(nhooks)))
-    return dict(hier=hier, nhooks=nhooks, ops=ops + reads, cmp_trace=cmp_trace)
+    return dict(hier=hier, nhooks=nhooks, ops=ops + reads, cmp_trace=cmp_trace, stack_pad=stack_pad)
 
 
 def ser(case):
@@ -103,7 +112,9 @@ def ser(case):
 def oracle_case(chk, case):
     """Stated directly on the implementation: documented exception classes, no residue, and every later
     read equals the one of a failure-free twin (the same history without the failing reads)."""
-    outs, trace, flags, caches, dicts = X.Impl(case['hier'], case['nhooks']).run(case['ops'], X.Values())
+    im = X.Impl(case['hier'], case['nhooks'])
+    im.stack_pad = case.get('stack_pad', 0)
+    outs, trace, flags, caches, dicts = im.run(case['ops'], X.Values())
     if outs and outs[0] == ('exn', 'ETimeout'):
         chk.fail('hang', "evaluation of the history did not finish within 4 s (reads must fail in bounded time)", {'case': ser(case)})
         return False
@@ -118,7 +129,9 @@ def oracle_case(chk, case):
     if len(keep) == len(outs):
         return True
     twin_ops = [case['ops'][i] for i in keep]
-    outs2, _, flags2, caches2, _ = X.Impl(case['hier'], case['nhooks']).run(twin_ops, X.Values())
+    im2 = X.Impl(case['hier'], case['nhooks'])
+    im2.stack_pad = case.get('stack_pad', 0)
+    outs2, _, flags2, caches2, _ = im2.run(twin_ops, X.Values())
     for j, i in enumerate(keep):
         if outs2[j] != outs[i]:
             chk.fail('residue', f"operation {case['ops'][i]} gives {outs[i]} after a failed read but {outs2[j]} in a failure-free twin",
@@ -167,6 +180,7 @@ def run(chk):
     n = 3000 if chk.thorough else 450
     cases = [gen_case(rng, chk.thorough) for _ in range(n)]
     bad = X.run_cases(chk, cases, 'c07')
+    shrunk = []
     kinds = {}
     for c in cases:
         for out in c['impl']['outs']:
@@ -176,6 +190,7 @@ def run(chk):
                                      'runaway_cases': sum(1 for c in cases if not c['cmp_trace'])}
     for i in bad[:2]:
         small = X.shrink(chk, cases[i], 'c07')
+        shrunk.append((cases[i], small))
         chk.unshown_add(f"correspondence:case{i}", "model and implementation disagree; shrunk history: " + json.dumps(small, default=str)[:1500])
     seen = set()
     if result_class_oracle(chk, rng, 0):
@@ -185,6 +200,8 @@ def run(chk):
             if not oracle_case(chk, c):
                 break
     chk.cov['distinct_nontrivial'] += len(seen)
+    if shrunk and not chk.failures:
+        X.report_deviation(chk, shrunk[0][0], shrunk[0][1], 'dev')
     chk.sample(ser(cases[0]))
     chk.cov['rule'] = ("seeded nested evaluations (depth <= 6, across 1-2 instances) whose leaf is one of 15 result kinds, with an "
                        "exception of 6 kinds injected at a random level, AttributeError handlers (try / has_value) at random levels, "
